@@ -8,6 +8,7 @@ import GormModel.Lemmas.Bind
 import GormModel.Lemmas.BindAligned
 import GormModel.Lemmas.BindRetemplate
 import GormModel.Gen.Misc
+import GormModel.Gen.BindSites
 namespace Gorm
 open Gorm.Bind
 
@@ -199,7 +200,10 @@ theorem C01_subquery_is_expr {β : Type} (segs : List Seg) (vars : List (Val β)
     let e : Val β := if containsSub t ['@'] then .nexpr t vars else .expr t vars false
     addVar .dollar (n + 1) (.rsub (concretize .dollar segs) vars) st = addVar .dollar (n + 1) e st ∧
     spec .dollar (.rsub (concretize .dollar segs) vars) = spec .dollar e := by
-  simp only [addVar, spec, C01_retemplate segs vars.length hnd hal]
+  have hq : (concretize .qmark segs).contains '$' = false := by
+    have := Bind.noDollar_concretize_qmark segs hnd
+    simpa using this
+  simp only [addVar, spec, C01_retemplate segs vars.length hnd hal, hq]
   split <;> simp [addVar, spec]
 
 /-- **C01, sub-query re-numbering** (both branches of `AddVar case *DB`, stated for `$n`): embedding a well-formed
@@ -212,6 +216,23 @@ theorem C01_subquery_renumber {β : Type} (n : Nat) (sub : Val β) (st : St β) 
     (addVar .dollar n sub st).vars = st.vars ++ flatten .dollar sub :=
   let h := Bind.addVar_step .dollar n sub hfuel hwf st
   ⟨h.phs_eq, h.vars_eq⟩
+
+/-- FINDING F26 (kernel-checked witness, replayed on the real code by the harness):
+    `db.Where("outer_col = ?", o).Where("id IN (?)", db.Raw("SELECT id FROM t WHERE label = '$100' AND age > ?", a))` under
+    a `$n` dialect.  The sub-query was rendered on its own as `… label = '$100' AND age > $1`; the re-templating loop of
+    `AddVar case *DB` looks for `$1` and hits the head of the literal `'$100'` (the prefix problem); the `?` it leaves there
+    is then bound as the sub-query's value, the real placeholder keeps its INNER number: the statement reaches the driver
+    with the literal rewritten to `'$200'`, `$1` twice and `$2` never, for two bound values.  `WellFormed` excludes exactly
+    this (a `$` left over after re-templating); without an outer value the round trip is accidentally the identity. -/
+theorem C01_dollar_literal_counterexample :
+    let sub : Val String := .rsub "SELECT id FROM t WHERE label = '$100' AND age > $1".toList [.scalar "7"]
+    let st := render .dollar (Val.whereC [.expr "outer_col = ?".toList [.scalar "o"] false, .expr "id IN (?)".toList [sub] false])
+    String.ofList (concretize .dollar st.segs)
+        = "outer_col = $1 AND id IN (SELECT id FROM t WHERE label = '$200' AND age > $1)" ∧
+      st.vars.map Val.payload? = [some "o", some "7"] ∧ ¬ WellFormed .dollar sub ∧
+      String.ofList (concretize .dollar (render .dollar (Val.whereC [.expr "id IN (?)".toList [sub] false])).segs)
+        = "id IN (SELECT id FROM t WHERE label = '$100' AND age > $1)" := by
+  decide
 
 /-! ### non-vacuity of `WellFormed`, and what it excludes -/
 
@@ -284,5 +305,36 @@ theorem C01_arms_named_only :
 
 /-- the arm table the model was transcribed from equals the one regenerated from /repo on this run -/
 theorem C01_arms_model : Bind.modelArms = Gen.addVarArms := by decide
+
+/-! ### regenerated facts about the re-templating loops and the Expr/NamedExpr dispatch (extract/gen_c01.go → Gen/BindSites.lean) -/
+
+/-- what makes a Go loop `for … { BindVarTo(&bindvar, stmt, v); sql = strings.Replace(sql, bindvar.String(), "?", 1) }`
+    an instance of the model function `retemplate d 1 k`: in iteration i the statement handed to BindVarTo has exactly
+    i vars (so a numbered dialect prints the i-th placeholder), the builder is fresh, ONE occurrence is replaced by `?`,
+    the text is threaded through -/
+def retemplateLoopOk (l : Gen.RetemplateLoop) : Bool :=
+  l.count == 1 && l.newText == "?" && (l.grows == "append1" || l.grows == "prefix") && l.reset && l.fresh && l.threads &&
+    l.replaceAfterBind
+
+/-- the re-templating loops in gorm are exactly the two the model covers (AddVar `case *DB` = `Val.rsub`;
+    genJoinClause's ON handle = the same loop followed by `clause.Expr{SQL: onSQL, Vars: vars}`), and each of them is an
+    instance of `retemplate` — to which `C01_retemplate` applies -/
+theorem C01_retemplate_sites :
+    Gen.retemplateLoops.map (fun l => (l.fn, l.file)) = [("BuildQuerySQL", "callbacks/query.go"), ("Statement.AddVar", "statement.go")] ∧
+    ∀ l ∈ Gen.retemplateLoops, retemplateLoopOk l = true := by decide
+
+/-- the conditions under which a text is handed to `clause.NamedExpr` (the only builder that resolves named arguments
+    given as sql.NamedArg, map, struct or pointer to struct) look at the TEXT (and at most at the presence of
+    arguments), never at the dynamic type of the arguments — as in the model (`buildCondStr`, `Val.rsub`, Raw/Exec) -/
+def namedDispatchOk (s : Gen.NamedDispatch) : Bool :=
+  (s.cond == "strings.Contains(" ++ s.sqlArg ++ ", \"@\")" && !s.inElse) ||
+  (s.cond == "len(args) > 0 && strings.Contains(" ++ s.sqlArg ++ ", \"@\")" && !s.inElse) ||
+  (s.cond == "strings.Count(" ++ s.sqlArg ++ ", \"@\") > 0 && len(args) > 0" && !s.inElse) ||
+  -- raw-string joins: always NamedExpr (the else branches of "is it a relation name?")
+  (s.fn == "BuildQuerySQL" && s.sqlArg == "join.Name" && s.inElse)
+
+theorem C01_named_dispatch_sites :
+    Gen.namedDispatch.map (·.fn) = ["BuildQuerySQL", "BuildQuerySQL", "DB.Raw", "DB.Select", "DB.Exec", "Statement.AddVar", "Statement.BuildCondition"] ∧
+    ∀ s ∈ Gen.namedDispatch, namedDispatchOk s = true := by decide
 
 end Gorm
